@@ -574,6 +574,16 @@ impl FunctionCompiler<'_> {
                     assert!(!dest_ty.is_aggregate());
 
                     dest.write_all(res, *dest_ty, self.module, &mut self.builder);
+                } else if matches!(
+                    self.world_bodies[self.loc.file()][assign_body.value],
+                    hir::Expr::ArrayLiteral { .. } | hir::Expr::StructLiteral { .. }
+                ) {
+                    // a literal is normally built member by member in its destination, but here
+                    // the members can read the destination (`p = P.{ x = p.y, y = p.x }`), so
+                    // it is built in a temporary and copied over
+                    let value_ty = self.tys[self.loc][assign_body.value];
+                    let value = self.compile_expr(assign_body.value);
+                    self.cast_into_memory(value, value_ty, *dest_ty, dest);
                 } else {
                     self.compile_and_cast_into_memory(assign_body.value, *dest_ty, dest);
                 }
